@@ -159,6 +159,12 @@ def oracles(rec):
                         fail('C01', f'state changed from {src} to {cur[1]} on a refused event')
                 prev = cur
                 continue
+            if dyn and res.startswith('errdyn:IT:') and not o['calls']:
+                # refused as invalid without running a single hook, although the declared relation has an edge
+                fail('C01', f'{src} --{e["event"]}--> {e["target"]} is declared, but handle refused the event as invalid ({res})')
+                fail('C09', f'the typed method of {e["event"]} exists on a machine in {src}, but handle reports {res}')
+                prev = cur
+                continue
             nab = len(e['ar'])
             conds = [(g, True) for g in e['g']] + [(u, False) for u in e['u']]
             exp_calls = ([('ab', n, src) for n in e['ar']] + [('cond', n, src) for n, _ in conds] +
